@@ -170,6 +170,25 @@ def run_impl(lines, binary=None, timeout=1800, nproc=4):
             out[k + j * nshards] = r
     return out
 
+def run_impl_valgrind(lines, binary=None, timeout=600):
+    """one harness process per case under valgrind memcheck; a case on which valgrind reports an error gets the record [3 0 77]
+    (panic record, code 77) prepended to its trace"""
+    binary = binary or harness_build()
+    def one(line):
+        try:
+            p = subprocess.run(["valgrind", "-q", "--error-exitcode=9", binary], input=line + "\n", stdout=subprocess.PIPE, stderr=subprocess.PIPE, text=True, timeout=timeout, env=ENV)
+        except subprocess.TimeoutExpired:
+            return None
+        rows = [[int(x) for x in l.split()] for l in p.stdout.splitlines() if l.strip() and l.split()[0].lstrip("-").isdigit()]
+        row = rows[0] if rows else [9]
+        if p.returncode == 9 or "Invalid read" in p.stderr or "Invalid write" in p.stderr or "Invalid free" in p.stderr:
+            row = [3, 0, 77] + row
+        elif p.returncode not in (0, 75):
+            row = [3, 0, 78] + row
+        return row
+    with ThreadPoolExecutor(8) as ex:
+        return list(ex.map(one, lines))
+
 # --------------------------------------------------------------------------------------------- traces
 ARITY = {0: 2, 1: 7, 2: 5, 3: 3, 30: 8}
 def parse_trace(flat):
